@@ -119,9 +119,9 @@ def stepLine (s : State) (line : String) : State × String :=
       if order != "ft" && order != "tf" then (s, "bad-op") else
       let fields := if order == "ft" then ["prefix", "from", "to"] else ["prefix", "to", "from"]
       let sig : Nat × List Nat := (signer, signedBytes fields pfxBytes (fun a => [a]) f b)
-      let res := migrateMsg (H := List Nat) (S := Nat × List Nat) id
-        (fun h sg => if sg.1 != 0 && sg.2 == h then some sg.1 else none) pfxBytes (fun a => [a]) cfg s f
-        { cls := cls, bytes := b, hex := hx } sig
+      let res := migrateMsgP (H := List Nat) (S := Nat × List Nat) id
+        (fun h sg => if sg.1 != 0 && sg.2 == h then some sg.1 else none) pfxBytes (fun a => [a]) cfg
+        Gen.C14.handlerOrder Gen.C14.migrateHandlers s f { cls := cls, bytes := b, hex := hx } sig
       match res with
       | .ok s' => (s', "ok " ++ showState s')
       | .error e => (s, errName e ++ " " ++ showState s)
@@ -133,7 +133,7 @@ def stepLine (s : State) (line : String) : State × String :=
   | ws =>
     match parseOp ws with
     | some op =>
-      let (s', r) := step cfg s op
+      let (s', r) := stepP cfg Gen.C14.handlerOrder Gen.C14.migrateHandlers s op
       (s', r ++ " " ++ showState s')
     | none => (s, "bad-op")
 
